@@ -1,7 +1,7 @@
 """Which rules decide which property."""
 from __future__ import annotations
 
-from .rules import frag, c01
+from .rules import frag, c01, c02
 
 ASSUME = [
     'stdlib ast and re._parser front ends are correct',
@@ -23,6 +23,23 @@ PROPERTIES = {
             ('C01-R3ii', c01.rule_fullmatch_sites, 'quick'),
             ('C01-R4', c01.rule_posix_tables, 'quick'),
             ('C01-R5', c01.rule_literal_escaping, 'quick'),
+        ],
+    },
+    'C02': {
+        'explanation': 'static analysis of /repo/wcmatch: path-mode fragment language equivalence, separator discipline at '
+                       'every emission site (CFG guards), scanner abort predicates, globstar / MATCHBASE decision tables, '
+                       'NODIR twins, forced PATHNAME (flag flow)',
+        'assumptions': ASSUME,
+        'rules': [
+            ('C02-R1', frag.rule_attr_fragments, 'quick'),
+            ('C02-R1', frag.rule_site_templates, 'quick'),
+            ('C02-R2', c02.rule_separator_consumers, 'quick'),
+            ('C02-R3', c02.rule_separator_pairing, 'quick'),
+            ('C02-R4', c02.rule_bracket_abort, 'quick'),
+            ('C02-R5', c02.rule_globstar_predicate, 'quick'),
+            ('C02-R6', c02.rule_matchbase, 'quick'),
+            ('C02-R7', c02.rule_nodir, 'quick'),
+            ('C02-R8', c02.rule_forced_pathname, 'quick'),
         ],
     },
 }
